@@ -445,6 +445,18 @@ def r3_sibling_agreement(run):
             "base64.b64encode(signer.sign(%s))" % unparse(jt) and \
             {d.node for d in scfg.rd.reaching(unparse(jt), sig_assign[0].id)} \
             == {join_s[0].id}
+        if not ok and isinstance(v, ast.Call) and \
+                attr_chain(v.func) == "base64.b64encode" and len(v.args) == 1 \
+                and isinstance(v.args[0], ast.Call) and \
+                attr_chain(v.args[0].func) == "signer.sign" and \
+                len(v.args[0].args) == 1:
+            # ... or the string is built in place: the joined text itself
+            # (at most re-encoded) is what the signer gets
+            x = v.args[0].args[0]
+            while isinstance(x, ast.Call) and isinstance(x.func, ast.Attribute) \
+                    and x.func.attr == "encode":
+                x = x.func.value
+            ok = x is a["node"]
         run.check(ok, "R3", sg.qual + "::Signature-value",
                   "Signature = base64(signer.sign(string))",
                   "Signature value is %s" % unparse(v), sg.loc(v))
